@@ -54,9 +54,11 @@ structure Facts where
   stopOnceCloses : Bool       -- `Stop`: `stopOnce.Do(close queue(s) / close(stopChan))`
   mlineLaneIsSlot : Bool      -- `addCallCtx` enqueues on `qs[NormalizeSlotIndex(hashIndex, slotSize)]`; `popLoop(index)` passes `index`
   queueFifo : Bool            -- `pipe/q.Q` and `async.Q`: `AddReq/Add` = closed? full? PushBack; `pop` = Front, blocks while empty and open
+  ctxFreshPerCall : Bool      -- every accepted call owns a freshly allocated context object (constructors return a new
+                              -- literal; AsyncCall/AsyncDelegate/AsyncProc = add + wait, nothing recycled while queued)
 deriving DecidableEq, Repr
 
-def Facts.expected : Facts := ⟨true, true, true, true, true, true, true, true, true, true, true, true, true, true, true⟩
+def Facts.expected : Facts := ⟨true, true, true, true, true, true, true, true, true, true, true, true, true, true, true, true⟩
 
 /-! ### the slot kernel -/
 
